@@ -20,6 +20,25 @@ type Ctx struct {
 	Tier string
 	fns  map[*ssa.Function]*ir.Func
 	cg   *CallGraph
+	lets map[string]string
+}
+
+// Let defines a textual macro usable as {NAME} in patterns and callee names.
+func (c *Ctx) Let(name, text string) {
+	if c.lets == nil {
+		c.lets = map[string]string{}
+	}
+	c.lets[name] = c.X(text)
+}
+
+// X expands macros.
+func (c *Ctx) X(s string) string {
+	for i := 0; i < 4 && strings.Contains(s, "{"); i++ {
+		for k, v := range c.lets {
+			s = strings.ReplaceAll(s, "{"+k+"}", v)
+		}
+	}
+	return s
 }
 
 func NewCtx(p *load.Program, prop, tier string, r *report.Result) *Ctx {
@@ -109,6 +128,14 @@ func (c *Ctx) sites(f *ir.Func, callee string) []ssa.CallInstruction {
 	return cs
 }
 
+func (c *Ctx) xs(in []string) []string {
+	out := make([]string, len(in))
+	for i, s := range in {
+		out[i] = c.X(s)
+	}
+	return out
+}
+
 func short(s string) string {
 	if len(s) > 300 {
 		return s[:300] + "…"
@@ -135,12 +162,13 @@ func (c *Ctx) CallArg(fnSpec, callee string, idx int, pattern string, desc strin
 
 // CallArgN is CallArg with a floor on the number of sites and a role suffix to keep keys unique.
 func (c *Ctx) CallArgN(fnSpec, callee string, idx int, pattern string, desc string, min int, role string) {
+	r := fmt.Sprintf("%s/arg%d%s", callee, idx, role)
+	callee, pattern = c.X(callee), c.X(pattern)
 	f := c.Fn(fnSpec)
 	if f == nil {
 		return
 	}
 	subject := fnSpec
-	r := fmt.Sprintf("%s/arg%d%s", callee, idx, role)
 	cs := c.sites(f, callee)
 	if len(cs) < min {
 		c.add("A", subject, r, desc, report.Violated, fmt.Sprintf("expected >=%d call(s) to %s, found %d", min, callee, len(cs)), c.fnPos(f))
@@ -165,11 +193,12 @@ func (c *Ctx) CallArgN(fnSpec, callee string, idx int, pattern string, desc stri
 // CallWhere selects the calls to callee whose argument selIdx matches selPat (exactly `want` of them must
 // exist) and requires argument idx to match pattern.
 func (c *Ctx) CallWhere(fnSpec, callee string, selIdx int, selPat string, idx int, pattern, desc, role string) {
+	r := fmt.Sprintf("%s/%s", callee, role)
+	callee, pattern, selPat = c.X(callee), c.X(pattern), c.X(selPat)
 	f := c.Fn(fnSpec)
 	if f == nil {
 		return
 	}
-	r := fmt.Sprintf("%s/%s", callee, role)
 	var hit []ssa.CallInstruction
 	for _, call := range c.sites(f, callee) {
 		args := f.CallArgs(call)
@@ -200,12 +229,14 @@ func (c *Ctx) CallWhere(fnSpec, callee string, selIdx int, selPat string, idx in
 // HasCall: fn contains a call to callee whose arguments match the given patterns ("" = any), and
 // (if onSuccess) every success path passes through such a call.
 func (c *Ctx) HasCall(fnSpec, callee string, argPats []string, onSuccess bool, desc, role string) {
+	r := callee + "/" + role
+	callee = c.X(callee)
+	argPats = c.xs(argPats)
 	f := c.Fn(fnSpec)
 	if f == nil {
 		return
 	}
 	kind := "M"
-	r := callee + "/" + role
 	var hits []ssa.CallInstruction
 	var seen []string
 	for _, call := range c.sites(f, callee) {
@@ -317,6 +348,7 @@ func (c *Ctx) Order(fnSpec, earlier, later, desc string) {
 
 // Returns: every success exit of fn returns, at result idx, a term matching pattern.
 func (c *Ctx) Returns(fnSpec string, idx int, pattern, desc, role string) {
+	pattern = c.X(pattern)
 	f := c.Fn(fnSpec)
 	if f == nil {
 		return
@@ -371,6 +403,7 @@ func FieldStores(f *ir.Func, field string) []*ssa.Store {
 
 // StoreField: fn stores to field `field` (at least once) and every such store's value matches pattern.
 func (c *Ctx) StoreField(fnSpec, field, pattern, desc string) {
+	pattern = c.X(pattern)
 	f := c.Fn(fnSpec)
 	if f == nil {
 		return
@@ -430,4 +463,88 @@ func uniq(s []string) []string {
 		}
 	}
 	return out
+}
+
+// StoreOrder: every store to field `field` in fn is preceded (dominated) by a call to `before` (if non-empty)
+// and followed on every success path by a call to each of `after` (the store dominates them).
+func (c *Ctx) StoreOrder(fnSpec, field, before string, after []string, desc string) {
+	f := c.Fn(fnSpec)
+	if f == nil {
+		return
+	}
+	r := "storeorder/" + field
+	sts := FieldStores(f, field)
+	if len(sts) == 0 {
+		c.add("O", fnSpec, r, desc, report.Violated, "no store to field "+field, c.fnPos(f))
+		return
+	}
+	for _, st := range sts {
+		if before != "" {
+			ok := false
+			for _, call := range c.sites(f, before) {
+				if ir.InstrDominates(call, st) {
+					ok = true
+				}
+			}
+			if !ok {
+				c.add("O", fnSpec, r, desc, report.Violated, "store to "+field+" is not preceded by "+before, c.posOf(st))
+				return
+			}
+		}
+		for _, a := range after {
+			if !c.followedBy(f, st, c.sites(f, a)) {
+				c.add("O", fnSpec, r, desc, report.Violated, "store to "+field+" is not followed by "+a+" on every success path", c.posOf(st))
+				return
+			}
+		}
+	}
+	c.add("O", fnSpec, r, desc, report.OK, fmt.Sprintf("%d store(s)", len(sts)), c.posOf(sts[0]))
+}
+
+// followedBy: every path from instruction `from` to a success exit passes one of the calls.
+func (c *Ctx) followedBy(f *ir.Func, from ssa.Instruction, calls []ssa.CallInstruction) bool {
+	blocks := map[*ssa.BasicBlock]bool{}
+	for _, call := range calls {
+		if call.Block() == from.Block() {
+			// same block: after `from`?
+			after := false
+			for _, ins := range from.Block().Instrs {
+				if ins == from {
+					after = true
+				} else if ins == call.(ssa.Instruction) && after {
+					return true
+				}
+			}
+			continue
+		}
+		blocks[call.Block()] = true
+	}
+	start := from.Block()
+	seen := map[*ssa.BasicBlock]bool{}
+	work := []*ssa.BasicBlock{}
+	k := f.ExitKindOf(start)
+	if k == ir.SuccessExit || k == ir.MaybeExit {
+		return false
+	}
+	for _, s := range start.Succs {
+		if !blocks[s] && !seen[s] {
+			seen[s] = true
+			work = append(work, s)
+		}
+	}
+	for len(work) > 0 {
+		b := work[len(work)-1]
+		work = work[:len(work)-1]
+		k := f.ExitKindOf(b)
+		if k == ir.SuccessExit || k == ir.MaybeExit {
+			return false
+		}
+		for _, s := range b.Succs {
+			if !seen[s] && !blocks[s] {
+				seen[s] = true
+				work = append(work, s)
+			}
+		}
+	}
+	return true
 }
